@@ -36,7 +36,7 @@ FIXES = ["alloc-base", "stale-check", "round-lag", "gather"]
 WITNESS = {
     "alloc-base": ["init 0 0", "avail 0"],
     "stale-check": ["get 1", "set 0 2", "get 1", "set2 0 2 0", "get 3", "set 1 3", "dget 0 10000 1", "avail 0"],
-    "round-lag": ["get 1", "set 0 3", "get 6", "set 0 3", "init 0 100", "dget 0 10000 64", "get 6", "set 0 3",
+    "round-lag": ["get 1", "set 0 3", "get 6", "init 0 0", "set 0 3", "dget 0 10000 64", "get 6", "set 0 3",
                   "get 6", "set 0 2", "dget 0 10000 64"],
     "gather": ["get 1", "set 0 1", "get 1", "set 0 1", "get 1", "set 0 3", "init 0 100", "dget 0 10000 64",
                "inc 0 1", "get 3", "set 0 1", "dget 0 3 64"],
